@@ -45,6 +45,7 @@ func c11(r *core.Run) {
 	r.Rule("C11/R1", "signer binding: every type in x/*/types with a GetSigners method returns a one-element slice whose element ⊵ exactly {receiver.Creator}; the set of such types covers all 45 request types of the service descriptors")
 	r.Rule("C11/R2", "routable: every descriptor method has a handler body; each types.RegisterInterfaces registers the Msg service descriptor; each module is constructed in the app's module manager and RegisterServices registers the Msg server")
 	r.Rule("C11/R3", "own-resource keying: provider, collateral, inbox, block-list, primary-name and file deletion writes are keyed by the signer; feed updates are behind Eq(Feed.Owner, signer); feed creation is behind Found=false with Owner:=signer")
+	r.Rule("C11/R7", "load/write key agreement: in every unit that loads and writes records of one prefix, the written key terms equal the loaded key terms (declared re-keying handlers excepted)")
 	r.Rule("C11/R6", "create-if-absent consistency: wherever a record is written behind Found(getter)=false on the same prefix, the getter's key and the written key are the same terms")
 	r.Rule("C11/R4", "wasm path: every path from the custom messenger to a storage handler passes Eq(msg.Creator, contract address)=true and ErrNil(ValidateBasic)")
 	r.Rule("C11/R5", "ante chain contains ValidateBasic, SetPubKey and SigVerification decorators in that relative order")
@@ -349,6 +350,73 @@ func c11(r *core.Run) {
 		}
 	}
 	r.Floor("C11/R6", nAbs, 5, "create-if-absent pairs")
+
+	// ---- R7 load/write key agreement: a unit that loads a record of a prefix (getter with found flag) and writes a
+	// record of the same prefix built or loaded there, uses the same key terms for both — unless the handler is a
+	// declared re-keying operation.
+	rekey := map[string]string{
+		"filetree.MsgChangeOwner": "moves the entry to the new owner's key by design (old key deleted, C10/R3)",
+		"filetree.MsgPostFile":    "reads the parent folder and writes the child entry (different keys by design, C10/R2)",
+		"storage.MsgAttest":       "keeper unit reads the form and the file, writes the proof (different kinds)",
+	}
+	nLW := 0
+	for _, h := range hs {
+		if _, ok := rekey[h.Key()]; ok {
+			continue
+		}
+		for _, fn := range p.Summary(h.Fn).Funcs {
+			type site struct {
+				call   ssa.CallInstruction
+				callee *ssa.Function
+				op     *core.StoreOp
+			}
+			var getters, setters []site
+			allInstrs(fn, func(in ssa.Instruction) {
+				call, ok := in.(ssa.CallInstruction)
+				if !ok {
+					return
+				}
+				for _, cal := range p.Callees(call) {
+					if gi := p.StoreGetter(cal); gi != nil && gi.Found {
+						for _, o := range p.StoreOps(cal) {
+							if o.Kind == "Get" {
+								getters = append(getters, site{call, cal, o})
+							}
+						}
+					}
+					for _, o := range p.StoreOps(cal) {
+						if o.Kind == "Set" {
+							setters = append(setters, site{call, cal, o})
+						}
+					}
+				}
+			})
+			for _, st := range setters {
+				name := st.op.Module + "/" + st.op.Prefix
+				var gts [][]string
+				for _, g := range getters {
+					if g.op.Module+"/"+g.op.Prefix == name {
+						gts = append(gts, keyTermsAtCall(p, g.call, g.callee, g.op))
+					}
+				}
+				if len(gts) == 0 {
+					continue
+				}
+				nLW++
+				wt := keyTermsAtCall(p, st.call, st.callee, st.op)
+				match := false
+				for _, gt := range gts {
+					if strings.Join(gt, "\x00") == strings.Join(wt, "\x00") && !strings.Contains(strings.Join(wt, ""), "?") {
+						match = true
+					}
+				}
+				r.Check(match, "C11/R7", fmt.Sprintf("%s:%s:loaded-key=written-key:%s", h.Key(), fn.Name(), name), p.InstrPos(st.call),
+					"the record written is keyed as the record loaded: "+strings.Join(wt, " / "),
+					fmt.Sprintf("the unit loads %s by %v but writes it under %v: the check and the write concern different records", name, gts, wt))
+			}
+		}
+	}
+	r.Floor("C11/R7", nLW, 15, "load/write pairs")
 
 	// ---- R4 wasm
 	c11Wasm(r, hs)
